@@ -32,6 +32,13 @@ int main() {
         try { RequestParser p; p.parse(e, strlen(e)); }
         catch (const std::exception &ex) { printf("VIOLATION: parse() threw %s on a malformed Content-Length\n", ex.what()); bad = 1; }
     }
+    {   // a declared body length close to SIZE_MAX: the body can never be complete, whatever follows the head
+        const std::string big = "POST /x HTTP/1.1\r\nContent-Length: 18446744073709551600\r\n\r\nabcdefgh";
+        for (size_t cut = 1; cut <= big.size(); ++cut) {
+            int r = feed_all(big, cut);
+            if (r == 1) { printf("VIOLATION: a request declaring 18446744073709551600 body bytes was reported complete with 8 body bytes given (cut %zu)\n", cut); bad = 1; break; }
+        }
+    }
     if (!bad) printf("ok\n");
     return bad;
 }
